@@ -6,3 +6,6 @@ Definition SOURCE_PRIORITY_MIN : N := 0.
 Definition SOURCE_PRIORITY_DEFAULT : N := 100.
 Definition SOURCE_PRIORITY_MAX : N := 200.
 Definition DMX_UNIVERSE_SIZE : N := 512.
+Definition USEC_IN_SECONDS : N := 1000000.
+Definition TIMEOUT_SEC : N := 2.
+Definition TIMEOUT_USEC : N := 500000.
